@@ -85,6 +85,17 @@ def check(chk):
     _c02._start_wait_taken_only_when_starting(chk)
     from sa.helpers import unload_cleanup_unconditional
     unload_cleanup_unconditional(chk, "PAIR-8")
+    # the start callback belongs to one start request: every accepted start stores the callback it was given (None included), so a callback of
+    # an earlier cycle cannot fire for a later start
+    stf = chk.repo.func(MD, "Mode.start")
+    chk.analysed(stf)
+    stc = stf.cfg()
+    sets_ = [n for n in stc.nodes if n.kind == "stmt" and isinstance(n.ast, ast.Assign) and src(n.ast.targets[0]) == "self.start_callback"]
+    acc_ = [n for n in stc.nodes if n.kind == "stmt" and isinstance(n.ast, ast.Assign) and src(n.ast.targets[0]) == "self._starting" and src(n.ast.value) == "True"]
+    ok_ = bool(sets_) and all(src(n.ast.value) == "callback" for n in sets_) and bool(acc_) and \
+        stc.must_pass(acc_[0].id, [n.id for n in sets_]) is None and not any("callback" in k for n in sets_ for k in stc.guards_at(n.id))
+    chk.ob("PAIR-8", "every accepted start stores the callback of that request (also None): no callback survives into a later start", ok_, stf.where(sets_[0].ast) if sets_ else stf.where(),
+           detail="guards %s" % [sorted(stc.guards_at(n.id).items()) for n in sets_], construct=stf.ident, text="start callback per request")
     # ... and the device's in-flight progress goes with it: a sequence shot forgets its half-finished sequences on every path of the unload (with
     # their time-outs cleared they could never expire: the next run of the mode would complete them with the last step alone)
     ss_ = chk.repo.func("mpf/devices/sequence_shot.py", "SequenceShot.device_removed_from_mode")
@@ -748,6 +759,7 @@ def battery():
     from sa.battery import M
     EP = "mpf/config_players/event_player.py"
     return [
+        M("start callback kept when a later start gives none", MD, "        self.start_callback = callback\n", "        if callback:\n            self.start_callback = callback\n", "PAIR-8"),
         M("sequence shot keeps its half-finished sequences on unload", "mpf/devices/sequence_shot.py", "        self._remove_handlers()\n        self.reset_all_sequences()\n        self.delay.clear()", "        self._remove_handlers()\n        self.delay.clear()", "PAIR-8"),
         M("combo switch forgets its delays by name", "mpf/devices/combo_switch.py", "    def _kill_delays(self):\n        self.delay.clear()", "    def _kill_delays(self):\n        for group in (1, 2):\n            self.delay.remove('switch_{}_active'.format(group))\n            self.delay.remove('switch_{}_inactive'.format(group))", "PAIR-8"),
         M("logic block keeps its timeout on unload (F23 reverted)", "mpf/devices/logic_blocks.py", "        self.delay.remove(\"timeout\")\n        self._state = None", "        self._state = None", "PAIR-8"),
